@@ -872,6 +872,330 @@ def run_dispatch(c, fails, hist):
 
 
 # ------------------------------------------------------------------------------------------------
+# (a') dispatch HISTORIES: the table / outs / ends / default output edited between the packets of one object
+# ------------------------------------------------------------------------------------------------
+#
+# Reading (DESIGN section 3, reconfiguration while running): "hands a packet to the flow's registered end device if there is one, otherwise
+# to the output its forwarding table names, default for unknown flows" is judged against the contents the table, `outs`, `ends` and
+# `default_out` have AT THE INSTANT OF THE put().  The forwarding table is installed by reference (the fat-tree application does
+# `demux.fib = node['flow_to_port']`), so its owner re-routes a flow by `table[f] = other_port`; `outs[i]` / `default_out` are public
+# attributes.  A demux has no memory: the n-th packet of a flow goes where a freshly built demux with the current contents would send it.
+#
+# A history = an initial configuration + steps, all applied to ONE real object (FIBDemux, FlowDemux, SimplePacketSwitch, FairPacketSwitch):
+#   ['pkt', pid, flow]            put a packet (switches: then run the simulation until it is idle)
+#   ['fib_put', f, port]          table[f] = port   in place, on the dict object that was installed (add or change an entry)
+#   ['fib_del', f]                del table[f]      in place
+#   ['fib_new', [[f, port]...]]   a NEW dict installed through the `fib` setter (later in-place edits go to this one)
+#   ['out', i, dev]               outs[i] = another device (in place, on the list the object holds)
+#   ['outs_new', [dev...]]        the attribute `outs` re-bound to a new list (demuxes only)
+#   ['outs_append', dev] / ['outs_pop']   the list grows / shrinks in place (FlowDemux)
+#   ['default', dev | None]       default_out re-pointed / removed
+#   ['end_put', f, dev] / ['end_del', f]  an end device registered / unregistered in `ends`
+# The rule oracle keeps its own copy of the contents (from the steps, never read back from the object) and restates the rule with them at
+# every packet.  Replay: the Lean Route model takes one static configuration per case, so every packet of a history is replayed as a
+# static case of its own holding the contents of that moment (switches as the demux they are specified to route like: FairPacketSwitch
+# -> fibdemux, SimplePacketSwitch -> flowdemux, outputs named by the recording devices behind them).
+
+HIST_EDITS = {'fibdemux': ['fib_put'] * 5 + ['fib_del', 'fib_del', 'fib_new', 'fib_new', 'out', 'out', 'out', 'outs_new', 'default', 'end_put', 'end_put', 'end_del'],
+              'flowdemux': ['out'] * 4 + ['outs_append', 'outs_pop', 'outs_new', 'default', 'default'],
+              'fair': ['fib_put'] * 5 + ['fib_del', 'fib_del', 'fib_new', 'fib_new', 'out', 'out', 'default', 'end_put', 'end_put', 'end_del'],
+              'simple': ['out'] * 3 + ['default', 'default']}
+
+
+def hist_state(c):
+    """the contents at the start of history `c` (the oracle's own copy)"""
+    dv = c['dev']
+    if dv in ('fibdemux', 'flowdemux'):
+        outs = None if c['outs'] is None else list(c['outs'])
+    else:
+        outs = list(range(c['nports']))                # the recording device behind port j is device j
+    return {'outs': outs, 'default': c.get('default'), 'ends': [list(e) for e in c.get('ends') or []],
+            'fib': None if c.get('fib') is None else [list(e) for e in c['fib']]}
+
+
+def hist_apply(st, step):
+    """the oracle's copy after an edit step"""
+    op = step[0]
+    if op == 'fib_put':
+        st['fib'] = [e for e in st['fib'] if e[0] != step[1]] + [[step[1], step[2]]]
+    elif op == 'fib_del':
+        st['fib'] = [e for e in st['fib'] if e[0] != step[1]]
+    elif op == 'fib_new':
+        st['fib'] = [list(e) for e in step[1]]
+    elif op == 'out':
+        st['outs'][step[1]] = step[2]
+    elif op == 'outs_new':
+        st['outs'] = list(step[1])
+    elif op == 'outs_append':
+        st['outs'].append(step[1])
+    elif op == 'outs_pop':
+        st['outs'].pop()
+    elif op == 'default':
+        st['default'] = step[1]
+    elif op == 'end_put':
+        st['ends'] = [e for e in st['ends'] if e[0] != step[1]] + [[step[1], step[2]]]
+    elif op == 'end_del':
+        st['ends'] = [e for e in st['ends'] if e[0] != step[1]]
+
+
+def hist_rule(dv, st, flow):
+    """the devices the rule names for a packet of `flow` with the contents `st` (None where the statement is silent)"""
+    if flow < 0:
+        return None
+    if dv in ('flowdemux', 'simple'):
+        outs = st['outs']
+        return [outs[flow]] if flow < len(outs) else ([st['default']] if st['default'] is not None else [])
+    return demux_expect(st, flow, st['outs'], st['default'])
+
+
+def gen_history(rng, i):
+    dv = rng.choices(['fibdemux', 'flowdemux', 'fair', 'simple'], weights=[7, 3, 4, 2])[0]
+    c = {'kind': 'hist', 'dev': dv}
+    fresh = [400]                                       # ids of devices that appear during the history
+
+    def newdev():
+        fresh[0] += 1
+        return fresh[0]
+    if dv == 'fibdemux':
+        n = rng.randint(1, 5)
+        c['outs'] = [100 + j for j in range(n)]
+        flows = rng.sample(range(0, 12), rng.randint(2, 6))
+        c['fib'] = [[f, rng.randrange(n)] for f in flows if rng.random() < 0.8]
+        c['ends'] = [[f, 300 + j] for j, f in enumerate(rng.sample(range(0, 12), rng.randint(0, 2)))] if rng.random() < 0.4 else []
+        c['default'] = 200 if rng.random() < 0.6 else None
+        c['install'] = rng.choice(['ctor', 'ctor', 'setter'])       # the table handed to the constructor, or installed through the setter afterwards
+    elif dv == 'flowdemux':
+        n = rng.randint(1, 6)
+        c['outs'] = [100 + j for j in range(n)]
+        c['default'] = 200 if rng.random() < 0.6 else None
+        flows = list(range(n + 2))
+    elif dv == 'fair':
+        n = rng.randint(1, 4)
+        c['nports'] = n
+        c['server'] = rng.choice(SERVERS)
+        flows = rng.sample(range(0, 10), rng.randint(2, 5))
+        c['fib'] = [[f, rng.randrange(n)] for f in flows if rng.random() < 0.8]
+        c['ends'] = [[f, 300 + j] for j, f in enumerate(rng.sample(range(0, 10), rng.randint(0, 2)))] if rng.random() < 0.3 else []
+        c['default'] = None
+    else:
+        n = rng.randint(1, 5)
+        c['nports'] = n
+        c['default'] = None
+        flows = list(range(n + 2))
+    st = hist_state(c)
+    focus = rng.sample(flows, min(len(flows), rng.randint(1, 3)))      # the flows whose packets straddle the edits
+    steps, pid = [], 0
+
+    def pkts(k):
+        nonlocal pid
+        for _ in range(k):
+            f = rng.choice(focus) if rng.random() < 0.8 else rng.choice(flows + [12])
+            steps.append(['pkt', pid, f])
+            pid += 1
+    pkts(rng.randint(1, 3))
+    for _ in range(rng.randint(1, 5)):
+        for _ in range(rng.choice([1, 1, 1, 2])):
+            op = rng.choice(HIST_EDITS[dv])
+            nouts = len(st['outs'] or [])
+            f = rng.choice(focus) if rng.random() < 0.75 else rng.choice(flows)
+            if op == 'fib_put':
+                port = rng.randrange(nouts) if (nouts and rng.random() < 0.92) else nouts + rng.randint(0, 1)
+                cur = dict(map(tuple, st['fib'])).get(f)
+                if cur is not None and nouts > 1 and rng.random() < 0.8:
+                    port = rng.choice([p for p in range(nouts) if p != cur])       # a re-route: another port than the one in force
+                step = ['fib_put', f, port]
+            elif op == 'fib_del':
+                known = [e[0] for e in st['fib']]
+                if not known:
+                    continue
+                step = ['fib_del', f if f in known else rng.choice(known)]
+            elif op == 'fib_new':
+                step = ['fib_new', [[g, rng.randrange(max(nouts, 1))] for g in flows if rng.random() < 0.7]]
+            elif op == 'out':
+                if not nouts:
+                    continue
+                used = [e[1] for e in st['fib'] or [] if e[0] in focus and 0 <= e[1] < nouts] if dv in ('fibdemux', 'fair') else [g for g in focus if g < nouts]
+                idx = rng.choice(used) if (used and rng.random() < 0.8) else rng.randrange(nouts)
+                other = [d for d in st['outs'] if d != st['outs'][idx]]
+                step = ['out', idx, rng.choice(other) if (other and rng.random() < 0.3) else newdev()]
+            elif op == 'outs_new':
+                m = rng.randint(1, nouts + 1)
+                step = ['outs_new', [rng.choice(st['outs']) if (st['outs'] and rng.random() < 0.5) else newdev() for _ in range(m)]]
+            elif op == 'outs_append':
+                step = ['outs_append', newdev()]
+            elif op == 'outs_pop':
+                if nouts <= 1:
+                    continue
+                step = ['outs_pop']
+            elif op == 'default':
+                step = ['default', None if (st['default'] is not None and rng.random() < 0.4) else newdev()]
+            elif op == 'end_put':
+                step = ['end_put', f, newdev()]
+            else:
+                known = [e[0] for e in st['ends']]
+                if not known:
+                    continue
+                step = ['end_del', rng.choice(known)]
+            steps.append(step)
+            hist_apply(st, step)
+        pkts(rng.randint(1, 3))
+    c['steps'] = steps
+    return c
+
+
+def hist_static_text(dv, st, pid, flow, cid):
+    """the static case of the route driver that holds the contents of this moment and this one packet"""
+    demux = 'fibdemux' if dv in ('fibdemux', 'fair') else 'flowdemux'
+    L = [f'CASE {cid} {demux}']
+    L.append('OUTS N' if st['outs'] is None else ('OUTS ' + ' '.join(map(str, st['outs']))).rstrip())
+    L.append('DEFAULT ' + N(st['default']))
+    if demux == 'fibdemux':
+        L.append(('ENDS ' + pairs(st['ends'])).rstrip())
+        L.append('FIB N' if st['fib'] is None else ('FIB ' + pairs(st['fib'])).rstrip())
+    L += [f'PKT {pid} {flow} 0', 'END']
+    return '\n'.join(L)
+
+
+def run_history(c, fails, hist):
+    """drive history `c` on the real object; returns (implementation lines per packet, static replay text per packet)"""
+    from onl.netdev.demux import FlowDemux, FIBDemux
+    from onl.netdev import SimplePacketSwitch, FairPacketSwitch
+    from onl.sim import Environment
+    Rec, _ = _classes()
+    dv = c['dev']
+    log, devs = [], {}
+
+    def dev(d):
+        if d is None:
+            return None
+        if d not in devs:
+            devs[d] = Rec(d, log)
+        return devs[d]
+    st = hist_state(c)
+    env = None
+    table = None if c.get('fib') is None else dict((f, p) for f, p in c['fib'])       # the dict object the OWNER keeps and edits
+    if dv == 'fibdemux':
+        outs = [dev(x) for x in c['outs']]
+        ends = dict((f, dev(x)) for f, x in c['ends'])
+        if c.get('install') == 'setter':
+            obj = FIBDemux(outs=outs, ends=ends, default_out=dev(c['default']))
+            obj.fib = table
+        else:
+            obj = FIBDemux(outs=outs, ends=ends, fib=table, default_out=dev(c['default']))
+        demux = obj
+    elif dv == 'flowdemux':
+        obj = demux = FlowDemux([dev(x) for x in c['outs']], dev(c['default']))
+    else:
+        env = Environment()
+        flows_all = sorted({s[2] for s in c['steps'] if s[0] == 'pkt'} | {e[0] for e in c.get('fib') or []}
+                           | {e[0] for s in c['steps'] if s[0] == 'fib_new' for e in s[1]} | {s[1] for s in c['steps'] if s[0] == 'fib_put'}) or [0]
+        with quiet():
+            if dv == 'simple':
+                obj = SimplePacketSwitch(env, c['nports'], 1e6, 64, element_id='sw')
+            else:
+                obj = FairPacketSwitch(env, c['nports'], 1e6, 64, {f: 1 + (f % 3) for f in flows_all}, c['server'], element_id='sw')
+        for j in range(c['nports']):
+            obj.ports[j].out = dev(j)
+        demux = obj.demux
+        if dv == 'fair':
+            demux.fib = table                               # installed by reference, as the fat-tree application does
+            for f, x in c['ends']:
+                demux.ends[f] = dev(x)
+    hist[f'history:{dv}'] += 1
+    out, texts = [], []
+    seen_flows, edited = {}, False
+    for step in c['steps']:
+        op = step[0]
+        if op == 'pkt':
+            _, pid, flow = step
+            p = mk_packet(pid, flow, 0)
+            del log[:]
+            exc = None
+            try:
+                with quiet():
+                    obj.put(p)
+                    if env is not None:
+                        drain(env)
+            except Exception as x:      # noqa
+                exc = type(x).__name__
+            entries = list(log)
+            lines = [f'P {pid}'] + fmt_deliveries(p, entries) + ([f'X {exc}'] if exc else [])
+            out.append(lines)
+            texts.append(hist_static_text(dv, st, pid, flow, '%s'))
+            exp = hist_rule(dv, st, flow)
+            if flow in seen_flows and seen_flows[flow] != exp:
+                hist[f'history:{dv}:packet of a flow whose rule outcome changed since its previous packet'] += 1
+            seen_flows[flow] = exp
+            if exp is None:
+                hist[f'history:{dv}:outside-statement'] += 1
+                continue
+            hist[f'history:{dv}:packets judged'] += 1
+            got = [d for d, _ in entries]
+            if exc or got != exp or any(o is not p for _, o in entries):
+                done = [s for s in c['steps'][:c['steps'].index(step)] if s[0] != 'pkt']
+                name = {'fibdemux': 'FIBDemux', 'flowdemux': 'FlowDemux', 'fair': f'FairPacketSwitch ({c.get("server")})', 'simple': 'SimplePacketSwitch'}[dv]
+                fails.add(f'{name} with a history: packet {pid} of flow {flow} went to {got}{" raising " + exc if exc else ""}; with the contents in force at this put() '
+                          f'(table {st["fib"]}, outs {st["outs"]}, ends {st["ends"]}, default {st["default"]}) the rule says {exp}.  Edits made between the packets so far: {done}',
+                          f'history-rule:{dv}', c, sum(out[-4:], []))
+        else:
+            hist['history:edit:' + op] += 1
+            edited = True
+            if op == 'fib_put':
+                table[step[1]] = step[2]
+            elif op == 'fib_del':
+                del table[step[1]]
+            elif op == 'fib_new':
+                table = dict((f, p) for f, p in step[1])
+                demux.fib = table
+            elif op == 'out':
+                demux.outs[step[1]] = dev(step[2])
+            elif op == 'outs_new':
+                demux.outs = [dev(x) for x in step[1]]
+            elif op == 'outs_append':
+                demux.outs.append(dev(step[1]))
+            elif op == 'outs_pop':
+                demux.outs.pop()
+            elif op == 'default':
+                demux.default_out = dev(step[1])
+            elif op == 'end_put':
+                demux.ends[step[1]] = dev(step[2])
+            elif op == 'end_del':
+                del demux.ends[step[1]]
+            hist_apply(st, step)
+    return out, texts
+
+
+def replay_histories(cases, fails, hist):
+    """histories on the real objects + every packet of them through the static Route model; returns (disagreements, packets replayed)"""
+    impl, text = {}, []
+    for i, c in enumerate(cases):
+        try:
+            out, texts = run_history(c, fails, hist)
+        except Exception as x:      # noqa
+            import traceback
+            fails.add(f'history on {c["dev"]}: driving the real object through its public API raised {type(x).__name__}: {x}',
+                      'drive-exception:hist', c, traceback.format_exc().splitlines()[-6:])
+            continue
+        for j, (lines, t) in enumerate(zip(out, texts)):
+            cid = f'h{i}.{j}'
+            impl[cid] = (c, j, lines)
+            text.append(t % cid)
+    model = {}
+    CH = 6000
+    for s in range(0, len(text), CH):
+        model.update(split_cases(run_driver('route', '\n'.join(text[s:s + CH]) + '\n')))
+    dis = []
+    for cid, (c, j, lines) in impl.items():
+        b = model.get(cid)
+        if lines != b:
+            d = first_diff(lines, b)
+            if len(dis) < 25:
+                dis.append({'case': c, 'detail': f'history, packet number {j}: line {d[0]}: impl `{d[1]}` static model with the contents of that moment `{d[2]}`' if d else 'length',
+                            'impl': lines, 'model': b or []})
+    return dis, len(impl)
+
+
+# ------------------------------------------------------------------------------------------------
 # (b) fat tree
 # ------------------------------------------------------------------------------------------------
 
@@ -1326,8 +1650,16 @@ def run(ctx):
         # oracle-only batch (a stream of its own: the cases above are what they were): downstream devices that raise
         rrng = random.Random(f'{PROP}-raise-{ctx.seed}')
         cases += [gen_raise_case(rrng, i) for i in range(500 if ctx.quick else 6000)]
+    # dispatch histories (a stream of their own): one object, its table / outs / ends / default output edited between the packets
+    if ctx.replay:
+        hcases = [c for c in cases if c.get('kind') == 'hist']
+        cases = [c for c in cases if c.get('kind') != 'hist']
+    else:
+        hrng = random.Random(f'{PROP}-hist-{ctx.seed}')
+        hcases = [gen_history(hrng, i) for i in range(1500 if ctx.quick else 20000)]
     fails = Failures()
     hist = collections.Counter()
+    hdis, hpk = replay_histories(hcases, fails, hist)
     impl = {}
     for i, c in enumerate(cases):
         impl[str(i)] = run_impl(c, fails, hist)
@@ -1376,6 +1708,12 @@ def run(ctx):
                               'judged_by': 'the rule oracle alone (handed to exactly the output the rule names; hand-overs logged before the raise); '
                                            'whether the exception reaches the caller is only counted (operation_histogram, downstream-raise:*)'},
         'observation_lines_compared': lines_cmp,
+        'dispatch_histories': {'histories': len(hcases), 'packets_each_replayed_as_a_static_case_with_the_contents_of_its_moment': hpk,
+                               'disagreements': len(hdis),
+                               'rule': 'one FIBDemux / FlowDemux / SimplePacketSwitch / FairPacketSwitch object whose table (in place / through the setter), outs[i], '
+                                       'default_out and ends are edited between packets; every packet judged by the rule oracle with the contents at the instant of its put() '
+                                       '(DESIGN section 3) and replayed through the static Route model with those contents; counted apart from `evaluations`',
+                               'sample': hcases[0] if hcases else None},
         'operation_histogram': dict(sorted(hist.items())),
         'fat_tree_k': sorted(set(c['k'] for c in cases if c['kind'] == 'fattree' and c.get('origin') == 'generate_flows')),
         'oracle_failures_total': len(fails),
@@ -1384,4 +1722,4 @@ def run(ctx):
         'hand_modelled': ['SimplePacketSwitch.__init__', 'FairPacketSwitch.__init__', 'Hub.__init__', 'Hub.add_endpoint', 'Hub.put',
                           'NSplitter.__init__', 'NSplitter.put', 'FatTree.__init__', 'FatTree.generate_fib'],
     }
-    return {'coverage': cov, 'disagreements': disagreements, 'oracle_failures': list(best.values())}
+    return {'coverage': cov, 'disagreements': disagreements + hdis, 'oracle_failures': list(best.values())}
